@@ -167,6 +167,9 @@ def run_case(client, msgs, pauses, fail, stagger):
             except Exception:
                 pass
             s.gw.write_actions[s.base_writes + fail] = ("fail", excs[(fail + len(msgs)) % len(excs)])
+            # the write usually fails because the gateway is away for a while: its first 0..2 answers after the failure are refusals
+            s.refusals = (fail // 2) % 3
+            s.gw.plan = [("refuse",)] * s.refusals + [("accept",)]
         tasks = []
         for (m, _), lag in zip(built, stagger):
             for _ in range(lag):
@@ -188,7 +191,7 @@ def run_case(client, msgs, pauses, fail, stagger):
         await asyncio.gather(*tasks, return_exceptions=True)
         s.state_after_sends = c.state.name
         s.attempts_after_sends = len(s.gw.attempts)
-        await asyncio.sleep(3.0)
+        await asyncio.sleep(3.0 if not getattr(s, "refusals", 0) else 6.0)
         s.final_state = c.state.name
         s.status_names = [x for _, x in s.status_trace]
         s.after = None
@@ -323,6 +326,9 @@ def evaluate(client, msgs, pauses, fail, stagger, outcome, s, built):
             out.append((f"{tag}|message-after-recovery-lost", f"a message sent after the reconnection: {len(got_bytes)} of {len(want)} bytes on the current link, state "
                         f"{state_after}, {links_after} connections", case))
     if fail_hit:
+        if client != "actisense" and s.final_state != "CONNECTED":
+            out.append((f"{tag}|write-failure-never-recovers", f"write {fail} failed, the gateway refused {getattr(s, 'refusals', 0)} attempt(s) and then accepts: "
+                        f"6 s later the client is {s.final_state} after {len(s.gw.attempts) - s.attempts_before} attempt(s) (status {s.status_names})", case))
         if "DISCONNECTED" not in s.status_names:
             out.append((f"{tag}|write-failure-not-reported", f"write {fail} failed but DISCONNECTED was never reported (status {s.status_names})", case))
         if len(s.gw.attempts) <= s.attempts_before:
